@@ -303,9 +303,6 @@ def discriminating_path(
             if next_node in explored_nodes:
                 continue
 
-            # keep track of explored_nodes
-            explored_nodes.add(next_node)
-
             # 'this_node' has to be a collider on the path, so the edge to 'next_node' needs
             # an arrowhead at 'this_node' (possible parents include this_node o-o next_node)
             if not graph.has_edge(
